@@ -611,6 +611,28 @@ func checkFamilies(w *World, c *Check, v *vocab, names []string, regType map[str
 		res, _, _ := ip.Call(fn, args, nil, Store{}, nil)
 		return res, ip
 	}
+	// NotEmpty and the kind-level tests it delegates to: package functions func(*T) bool on a vocabulary struct that are
+	// called from the closures NotEmpty hands to the typed-view helpers
+	notEmptyFn := w.Func("NotEmpty")
+	kindTests := map[*ssa.Function]bool{}
+	if notEmptyFn != nil {
+		for _, a := range allAnon(notEmptyFn) {
+			for _, call := range callsIn(a) {
+				g := call.Common().StaticCallee()
+				if g == nil || !w.InPkg(g) || g.Signature.Params().Len() != 1 || g.Signature.Results().Len() != 1 {
+					continue
+				}
+				if bt, ok := g.Signature.Results().At(0).Type().Underlying().(*types.Basic); !ok || bt.Kind() != types.Bool {
+					continue
+				}
+				if pt, ok := types.Unalias(g.Signature.Params().At(0).Type()).(*types.Pointer); ok {
+					if sn := namedOf(pt.Elem()); sn != nil && w.StructInfoOf(sn.Obj().Name()) != nil {
+						kindTests[g] = true
+					}
+				}
+			}
+		}
+	}
 	isObjectFn, isLinkFn := w.Func("IsObject"), w.Func("IsLink")
 	if isObjectFn == nil || isLinkFn == nil {
 		c.bad("C07.family", "anchor:IsObject/IsLink", "-", "package predicates IsObject/IsLink not found")
@@ -690,6 +712,41 @@ func checkFamilies(w *World, c *Check, v *vocab, names []string, regType map[str
 				c.bad("C07.family", key, w.FuncPos(m), fmt.Sprintf("%s.%s() is constantly %v but name %q is placed in %s", k.Obj().Name(), mn, b, n, famName(fam)))
 			} else {
 				c.ok("C07.family", key, w.FuncPos(m), fmt.Sprintf("constant %v", b))
+			}
+		}
+		// the emptiness filter of the item loader: JSONLoadItem drops what NotEmpty refuses. Whatever a value's own
+		// kind-level test (the package predicates NotEmpty hands its typed view to) says is final: with those forced to
+		// true, NotEmpty of the registry's value for this name — whose GetType() is the name — must be true. A branch
+		// that judges one Go family by something else ("a collection is non-empty when it has members") makes the loader
+		// discard every document of that family that the test would have kept: a page or collection without inline items
+		// decodes to nothing although it carries id, type, totalItems, first …
+		if notEmptyFn != nil {
+			ip := newInterp(w)
+			forced := 0
+			ip.postCall = func(callee *ssa.Function, args []AV, res AV) AV {
+				if callee.Name() == "GetType" && len(args) == 1 {
+					return AV{K: kConst, C: constant.MakeString(n), T: w.Named("ActivityVocabularyType")}
+				}
+				if kindTests[callee] {
+					forced++
+					return avBool(true)
+				}
+				// a Link answers IsLink from its Type field; for a name of the link family that is true
+				if callee.Name() == "IsLink" && isLinkFam && callee.Signature.Recv() != nil {
+					return avBool(true)
+				}
+				return res
+			}
+			res, _, _ := ip.Call(notEmptyFn, []AV{item}, nil, Store{}, nil)
+			key := fmt.Sprintf("not-empty:%q", n)
+			b, isConst := res.isConstBool()
+			switch {
+			case ip.aborted != "":
+				c.bad("C07.family", key, w.FuncPos(notEmptyFn), "undecided: "+ip.aborted)
+			case isConst && b && forced > 0:
+				c.ok("C07.family", key, w.FuncPos(notEmptyFn), "decided by the value's own kind-level test")
+			default:
+				c.bad("C07.family", key, w.FuncPos(notEmptyFn), fmt.Sprintf("NotEmpty(*%s) for name %q evaluates to %s although the kind-level emptiness test of the value says non-empty (%d such tests reached): the item loader drops documents of this type on the word of another criterion (e.g. a collection without inline members) — they decode to nothing, at top level and in every item position", k.Obj().Name(), n, res, forced))
 			}
 		}
 		// acceptors
